@@ -5,7 +5,7 @@ from fractions import Fraction as Fr
 import engine
 import prop
 import streams
-from common import sub_seed
+from common import sub_seed, size
 
 THEOREMS = ["LNN.C07_confluent",
             "LNN.C07_contradiction_invariant",
@@ -69,7 +69,7 @@ def run(rep, tier, seed):
         rep.extra["known_finding_D16_witness_reproduces"] = bool(wbad)
         if wbad and wbad.get("mixed_alpha"):
             rep.enable_known("D16")
-    n = 120 if tier == "quick" else 2500
+    n = size(tier, 120, 2500)
     cases = [gen_case(seed, k, "interp") for k in range(n // 2)] + [gen_case(seed, k + 10 ** 6, "given") for k in range(n - n // 2)]
     recs = engine.run_cases("prop", "run_c07", cases, chunksize=2)
     for r, c in zip(recs, cases):
